@@ -582,7 +582,18 @@ size_t varintAdaptiveReadMeta(const uint8_t *src, varintAdaptiveMeta *meta) {
     case VARINT_ADAPTIVE_PFOR: {
         varintPFORReadMeta(data, &meta->encodingMeta.pforMeta);
         meta->originalCount = meta->encodingMeta.pforMeta.count;
-        meta->encodedSize = varintPFORSize(&meta->encodingMeta.pforMeta) + 1;
+        /* Walk the exception list: varintPFORSize() is only an upper bound */
+        const varintPFORMeta *pm = &meta->encodingMeta.pforMeta;
+        const uint8_t *p = data + varintTaggedGetLen(data); /* min */
+        p += 1;                                             /* width */
+        p += varintTaggedGetLen(p);                         /* count */
+        p += (size_t)pm->count * pm->width;                 /* values */
+        p += varintTaggedGetLen(p);                         /* exceptions */
+        for (uint32_t i = 0; i < pm->exceptionCount; i++) {
+            p += varintTaggedGetLen(p); /* index */
+            p += varintTaggedGetLen(p); /* value */
+        }
+        meta->encodedSize = (size_t)(p - data) + 1;
         break;
     }
 
